@@ -136,6 +136,7 @@ var Avoid struct {
 	MakeLenCap    bool // F-C08-7: make([]T, len, cap) with len < 0 or len > cap: wrong panic or none
 	NilDerefValue bool // F-C08-8: *p as a value, p a nil pointer to array or struct, yields an invalid value instead of panicking
 	EllipsisHint  bool // F-C08-9: [...]T{...} where the context supplies the expected type is typed [0]T
+	AppendOverlap bool // F-C08-11: append(s[:k], t...) in place with t overlapping the destination copies element by element
 }
 var OnExcluded = func(id string) {}
 
@@ -510,13 +511,23 @@ func (g *gen) appendOp(s *slv, vars []*slv) *slv {
 	n := 0
 	var args string
 	switch g.Pick(5, "append-args") {
-	case 0: // spread another slice (maybe itself)
+	case 0: // spread another slice (maybe itself); every slice of the scenario may share the backing array
 		o := vars[g.Pick(len(vars), "append-src")]
 		n = o.len
+		if n > 0 && bl+n <= bc && Avoid.AppendOverlap {
+			OnExcluded("F-C08-11")
+			n = g.Int(1, 2, "spread-lit-n")
+			args = ", []" + s.e.typ + "{" + strings.TrimSuffix(strings.Repeat(s.e.lits[0]+", ", n), ", ") + "}..."
+			g.Tag("append:spread-literal")
+			break
+		}
 		args = ", " + o.name + "..."
 		g.Tag("append:spread")
 		if o == s {
 			g.Tag("append:self-spread")
+		}
+		if n > 0 && bl+n <= bc {
+			g.Tag("append:spread-in-place-maybe-overlapping")
 		}
 	case 1:
 		if s.e.typ == "uint8" {
@@ -942,6 +953,10 @@ func (g *gen) mapScenario() {
 				OnExcluded("F-C08-6")
 				continue
 			}
+			if strings.HasPrefix(perm[i], "[...]") && Avoid.EllipsisHint {
+				OnExcluded("F-C08-9")
+				continue
+			}
 			items = append(items, perm[i]+": "+g.val(v))
 		}
 		g.emit("%s := %s{%s}", m, mt, strings.Join(items, ", "))
@@ -1044,12 +1059,28 @@ func (g *gen) mapScenario() {
 
 // opVal draws the right operand of an op-assignment.
 func (g *gen) opVal(v *elem, op string) string {
+	identity := func(x string) bool {
+		return (op == "*=" && x == "1") || (op != "*=" && (x == "0" || x == `""`))
+	}
+	// arithmetic belongs to C01: its known finding F-C01-3 (x*0 folded to +0 for floats) is not re-reported here
+	floatZero := func(x string) bool { return op == "*=" && x == "0" && strings.HasPrefix(v.typ, "float") }
+	other := func() string {
+		for _, l := range v.lits {
+			if !identity(l) && !floatZero(l) {
+				return l
+			}
+		}
+		panic("no operand for " + v.typ + " " + op)
+	}
 	x := g.val(v)
-	identity := (op == "*=" && x == "1") || (op != "*=" && (x == "0" || x == `""`))
-	if identity {
+	if floatZero(x) {
+		g.Tag("excluded:float-times-constant-zero(F-C01-3)")
+		return other()
+	}
+	if identity(x) {
 		if Avoid.IdentityOp {
 			OnExcluded("F-C08-5")
-			return v.lits[0] // never an identity element
+			return other()
 		}
 		g.Tag("map:op-assign-identity-operand")
 	}
